@@ -13,6 +13,8 @@ Correspondence streams (implementation vs the model's own definitions run by drv
   bcast      every binary op site x group on tagged operands: lshape, last extent, which items met (pairing)
   bcast-err  non-broadcastable pairs: both raise
   unary      every unary op on every lshape: lshape and item-wise value
+  regime     (oracle only) ONE batch mixing special-regime items (gimbal lock +-, angle 0 / pi / tiny, w<0) with ordinary
+             ones, every unary op and every binary site: each output item == the same function on that item alone
   ctor       identity_* / randn_* / *_like / lview / LieTensor() shape assertion / Parameter / new_empty
   handled    every function of the regenerated list on element-tagged LieTensors: type, ltype, dtype, lshape and
              exactly which input item sits where (index maps of the model)
@@ -42,7 +44,9 @@ META = {
             "4746 not) — broadcast_inputs on every pair every run; op sites: every pair with 3 of the 8 group ops (+ alg_add on every second pair) per run, group and ops "
             "chosen by (pair, op, seed) rotation plus all 36 sites on a core set of pairs (quick), the full cross product "
             "(thorough); unary / constructors: all 85 lshapes x 8 ltypes; handled functions: every name of the regenerated "
-            "list x several call recipes x random lshape (rank 0..3, extents 0..3) x rotating ltype/dtype; retain: random "
+            "list x several call recipes x random lshape (rank 0..3, extents 0..3) x rotating ltype/dtype; regime: a fixed corner "
+            "corpus (18 special-regime + 5 ordinary items per ltype) in ONE batch, several layouts, every unary op and binary "
+            "site vs the same function on each item alone, identical for every seed, plus random permutations; retain: random "
             "bodies (calls, nesting <= 3, raise at a random point) + exhaustive small bodies. A case is non-trivial when the "
             "result has >= 2 items or an empty/scalar batch branch is exercised; distinct by (stream, op/function, ltype, "
             "lshapes, dtype).",
